@@ -5,6 +5,47 @@ use sourcemap::{SourceMap, SourceMapBuilder};
 
 use crate::step::StepToken;
 
+/// Serialize a token.
+///
+/// The serializer of `cssparser` prints every number through a float printer that keeps six
+/// significant digits, so an integer of seven or more digits (`z-index: 2147483647`) would change
+/// its value. An integer that the token carries exactly is written from its integer value.
+fn write_token_text(token: &Token, dest: &mut String) -> std::fmt::Result {
+    let (has_sign, value, int_value) = match token {
+        Token::Number {
+            has_sign,
+            value,
+            int_value,
+        }
+        | Token::Dimension {
+            has_sign,
+            value,
+            int_value,
+            ..
+        } => (*has_sign, *value, *int_value),
+        _ => return token.to_css(dest),
+    };
+    match int_value {
+        Some(i) if i != 0 && (i as f32) == value => {
+            // the unit (if any) is written by `cssparser`, after the same numeric part
+            let text = token.to_css_string();
+            let number = Token::Number {
+                has_sign,
+                value,
+                int_value,
+            };
+            let numeric_len = number.to_css_string().len();
+            if has_sign && i > 0 {
+                dest.push('+');
+            }
+            write!(dest, "{}", i)?;
+            dest.push_str(&text[numeric_len..]);
+            Ok(())
+        }
+        _ => token.to_css(dest),
+    }
+}
+
 pub struct StyleSheetOutput {
     s: String,
     prev_ser_type: TokenSerializationType,
@@ -69,7 +110,7 @@ impl StyleSheetOutput {
         }
         self.prev_ser_type = next_ser_type;
         let output_start_pos = self.s.len();
-        token.to_css(&mut self.s).unwrap();
+        write_token_text(&token, &mut self.s).unwrap();
         let name = src.map(|x| {
             let s = x.to_css_string();
             self.source_map.add_name(&s)
